@@ -19,7 +19,7 @@ def expr_src(e, secret):
     """expression tree -> python source; variables are `_.name` (API) or `v['name']` (native)"""
     t = e[0]
     if t == "var":
-        return f"_.{e[1]}" if secret else f"v['{e[1]}']"
+        return f"{CTX[0]}.{e[1]}" if secret else f"v['{e[1]}']"
     if t == "in":
         return f"inp[{e[1]}]"
     if t == "const":
@@ -56,26 +56,41 @@ def expr_src(e, secret):
 
 RAW = [False]      # probe only: pass the raw LinComb inside the LinCombBool as the `_if` condition
 
+# How the rendered program names and finds its context (program field "ctxmode", default: local name `_`, every call with `ctx=_`):
+#   {"name": N, "ctx_arg": false}  the program is a FUNCTION whose own context is the local N (`_`, `__`, `ctx2`, `bv`) and whose block
+#                                  calls carry no `ctx=`: the library finds the context by looking at the caller's frame
+#   "module_ctx": true             the module the function is defined in ALSO has a global context named `_` (variables of the same
+#                                  names, plain values), as in examples/branch2.py
+#   "nested": c                    the function is called by module-level code from inside an `_if(PrivVal(c) == 1)` block of the
+#                                  module's context `_` (which then holds secrets of its own)
+CTX = ["_", True]
+
+
+def carg(more):
+    if not CTX[1]:
+        return ""
+    return (", " if more else "") + "ctx=" + CTX[0]
+
 
 def render(stmts, secret, ind, out, counter):
     pad = "    " * ind
     for s in stmts:
         t = s[0]
         if t == "assign":
-            out.append(f"{pad}{'_.' + s[1] if secret else 'v[' + repr(s[1]) + ']'} = {expr_src(s[2], secret)}")
+            out.append(f"{pad}{CTX[0] + '.' + s[1] if secret else 'v[' + repr(s[1]) + ']'} = {expr_src(s[2], secret)}")
         elif t == "if":
             arms = s[1]; els = s[2]
             if secret:
                 for k, (c, body) in enumerate(arms):
                     if k == 0:
-                        out.append(f"{pad}if _if({expr_src(c, True)}{'.lc' if RAW[0] else ''}, ctx=_):")
+                        out.append(f"{pad}if _if({expr_src(c, True)}{'.lc' if RAW[0] else ''}{carg(True)}):")
                     else:
-                        out.append(f"{pad}if _elif(lambda: {expr_src(c, True)}, ctx=_):")
+                        out.append(f"{pad}if _elif(lambda: {expr_src(c, True)}{carg(True)}):")
                     render(body, True, ind + 1, out, counter); out.append(f"{pad}    pass")
                 if els is not None:
-                    out.append(f"{pad}if _else(ctx=_):")
+                    out.append(f"{pad}if _else({carg(False)}):")
                     render(els, True, ind + 1, out, counter); out.append(f"{pad}    pass")
-                out.append(f"{pad}_endif(ctx=_)")
+                out.append(f"{pad}_endif({carg(False)})")
             else:
                 for k, (c, body) in enumerate(arms):
                     out.append(f"{pad}{'if' if k == 0 else 'elif'} {expr_src(c, False)}:")
@@ -86,7 +101,7 @@ def render(stmts, secret, ind, out, counter):
         elif t == "range":    # r = _range(bound, max=M): one range object, iterated by the loops that name it
             if secret:
                 csm = ", checkstopmax=True" if len(s) > 4 and s[4] and s[4].get("checkstopmax") else ""
-                out.append(f"{pad}{s[1]} = _range({expr_src(s[2], True)}, max={s[3]}{csm}, ctx=_)")
+                out.append(f"{pad}{s[1]} = _range({expr_src(s[2], True)}, max={s[3]}{csm}{carg(True)})")
             else:
                 out.append(f"{pad}{s[1]} = range({expr_src(s[2], False)})")
         elif t == "for":
@@ -95,9 +110,9 @@ def render(stmts, secret, ind, out, counter):
             # optional 7th element: options of the loop's own `_range` ({"checkstopmax": true}: the stop-exceeds-max assertion)
             csm = ", checkstopmax=True" if len(s) > 6 and s[6] and s[6].get("checkstopmax") else ""
             if secret:
-                out.append(f"{pad}for {lv} in {shared}:" if shared else f"{pad}for {lv} in _range({expr_src(bound, True)}, max={mx}{csm}, ctx=_):")
+                out.append(f"{pad}for {lv} in {shared}:" if shared else f"{pad}for {lv} in _range({expr_src(bound, True)}, max={mx}{csm}{carg(True)}):")
                 render(body, True, ind + 1, out, counter); out.append(f"{pad}    pass")
-                out.append(f"{pad}_endfor(ctx=_)")
+                out.append(f"{pad}_endfor({carg(False)})")
             else:
                 out.append(f"{pad}for {lv} in {shared}:" if shared else f"{pad}for {lv} in range({expr_src(bound, False)}):")
                 render(body, False, ind + 1, out, counter); out.append(f"{pad}    pass")
@@ -106,12 +121,12 @@ def render(stmts, secret, ind, out, counter):
             counter[0] += 1; k = f"k{counter[0]}"
             if secret:
                 out.append(f"{pad}{k} = 0")
-                out.append(f"{pad}while _while({expr_src(cond, True)}, ctx=_) and {k} < {mx}:")
+                out.append(f"{pad}while _while({expr_src(cond, True)}{carg(True)}) and {k} < {mx}:")
                 render(body, True, ind + 1, out, counter)
                 out.append(f"{pad}    {k} += 1")
                 if brk is not None:
-                    out.append(f"{pad}    _breakif({expr_src(brk, True)}, ctx=_)")
-                out.append(f"{pad}_endwhile(ctx=_)")
+                    out.append(f"{pad}    _breakif({expr_src(brk, True)}{carg(True)})")
+                out.append(f"{pad}_endwhile({carg(False)})")
             else:
                 out.append(f"{pad}{k} = 0")
                 out.append(f"{pad}while {expr_src(cond, False)} and {k} < {mx}:")
@@ -121,7 +136,7 @@ def render(stmts, secret, ind, out, counter):
                     out.append(f"{pad}    if {expr_src(brk, False)}: break")
         elif t == "sel":      # _.x = if_then_else(cond, a, b) on already evaluated branch values of any kind
             if secret:
-                out.append(f"{pad}_.{s[1]} = if_then_else({expr_src(s[2], True)}, {expr_src(s[3], True)}, {expr_src(s[4], True)})")
+                out.append(f"{pad}{CTX[0]}.{s[1]} = if_then_else({expr_src(s[2], True)}, {expr_src(s[3], True)}, {expr_src(s[4], True)})")
             else:
                 out.append(f"{pad}v[{s[1]!r}] = ({expr_src(s[3], False)}) if ({expr_src(s[2], False)}) else ({expr_src(s[4], False)})")
         elif t == "setitem":  # _.l[i] = e   (in-place update of a tracked list)
@@ -132,7 +147,7 @@ def render(stmts, secret, ind, out, counter):
             out.append(f"{pad}refs[{s[1]!r}] = {expr_src(['var', s[2]], secret)}")
         elif t == "ite":      # _.x = if_then_else(cond, lambda: e1, lambda: e2)   (lazily evaluated branches)
             if secret:
-                out.append(f"{pad}_.{s[1]} = if_then_else({expr_src(s[2], True)}, lambda: {expr_src(s[3], True)}, lambda: {expr_src(s[4], True)})")
+                out.append(f"{pad}{CTX[0]}.{s[1]} = if_then_else({expr_src(s[2], True)}, lambda: {expr_src(s[3], True)}, lambda: {expr_src(s[4], True)})")
             else:
                 out.append(f"{pad}v[{s[1]!r}] = ({expr_src(s[3], False)}) if ({expr_src(s[2], False)}) else ({expr_src(s[4], False)})")
         else:
@@ -212,6 +227,8 @@ def main():
                 sys.stdout.write(f"{f[1]}|" + json.dumps(res) + "\n"); sys.stdout.flush()
                 continue
             RAW[0] = bool(prog.get("rawcond"))
+            cm = prog.get("ctxmode") or {}
+            CTX[0] = cm.get("name", "_"); CTX[1] = bool(cm.get("ctx_arg", True))
             bl = int(f[2])
             p = W.DEFAULT_P
             out = {}
@@ -235,10 +252,17 @@ def main():
             # oblivious version on the real API
             W.reset({"p": p, "bl": bl})
             src_s = []; render(prog["body"], True, 0, src_s, [0])
-            src_s = ["def __prog(_, inp, finp, refs):"] + ["    " + l for l in (src_s or ["pass"])] + ["    return _"]
+            src_s = [f"def __prog({CTX[0]}, inp, finp, refs):"] + ["    " + l for l in (src_s or ["pass"])] + [f"    return {CTX[0]}"]
             g = {"_if": _if, "_elif": _elif, "_else": _else, "_endif": _endif, "_while": _while, "_endwhile": _endwhile,
                  "_breakif": _breakif, "_range": _range, "_endfor": _endfor, "if_then_else": if_then_else, "PrivVal": PrivVal, "PrivValFxp": PrivValFxp}
             exec("\n".join(src_s), g)
+            mctx = None
+            if cm.get("module_ctx") or cm.get("nested") is not None:
+                # the module of the function has a context of its own under the conventional name `_`
+                mctx = BranchingValues(); g["_"] = mctx
+                for k in prog["init"]:
+                    setattr(mctx, k, 77)
+                mctx.own = 78
             ctx = BranchingValues()
             for k, val in prog["init"].items():
                 setattr(ctx, k, initval(k, val, True) if k in prog["secret_vars"] else val)
@@ -246,7 +270,16 @@ def main():
             sfin = [PrivValFxp(x) for x in fin]
             srefs = {}
             try:
-                g["__prog"](ctx, sinp, sfin, srefs)
+                if cm.get("nested") is not None:
+                    # module-level code: a block of the module's context `_` is open while the function (own context, other name) runs
+                    mctx.outer = PrivVal(5)
+                    g.update(HCTX=ctx, HINP=sinp, HFIN=sfin, HREFS=srefs, NESTC=int(cm["nested"]))
+                    msrc = ("if _if(PrivVal(NESTC) == 1):\n    _.outer = _.outer + 1\n    __prog(HCTX, HINP, HFIN, HREFS)\n"
+                            "    _.outer = _.outer + 1\n_endif()\n")
+                    exec(compile(msrc, "<module-level>", "exec"), g)
+                    src_s = src_s + ["# module level (globals hold `_`, a BranchingValues):"] + msrc.splitlines()
+                else:
+                    g["__prog"](ctx, sinp, sfin, srefs)
                 vals = {k: plain(x) for k, x in ctx.vals.items()}
                 unsat = [i for i, (a, b, c) in enumerate(B.constraints) if (W.ev(a, p) * W.ev(b, p) - W.ev(c, p)) % p != 0]
                 out["api"] = {"status": "ok", "vars": vals, "unsat": unsat[:5], "ncons": len(B.constraints), "npriv": len(B.privvals),
@@ -259,10 +292,19 @@ def main():
                               # canonical dump for the model-vs-code comparison (same text as Driver/ProtoBlock.lean prints)
                               "canon_vars": ";".join(f"{k[1:]}={W.canon.val_str(x, p, W.CLASSES)}" for k, x in ctx.vals.items()),
                               "canon_state": W.state_str(p)}
+                if mctx is not None:
+                    # the module's own context: its variables are what they were (outer: 5 + 2 if the block was taken), nothing left open
+                    want = {k: "77" for k in prog["init"]}; want["own"] = "78"
+                    if cm.get("nested") is not None:
+                        want["outer"] = "7" if cm["nested"] else "5"
+                    got = {k: num(x) for k, x in mctx.vals.items()}
+                    out["api"]["module_ctx"] = {"ok": got == want and not mctx.stack, "vars": got, "want": want, "stack": len(mctx.stack)}
+                    out["api"]["stack"] += len(mctx.stack)
             except Exception as e:
                 out["api"] = {"status": type(e).__name__, "msg": str(e)[:120], "where": traceback.format_exc().splitlines()[-3].strip()[:120]}
                 ctx.stack.clear()
             ctx.stack.clear()
+            if mctx is not None: mctx.stack.clear()
             out["src"] = "\n".join(src_s)
             res = f"{f[1]}|" + json.dumps(out)
         except BaseException as e:
